@@ -32,7 +32,10 @@ STATES = ["none", "connected", "ready", "waiting_dwa", "disconnecting", "closed"
           "two_conns_first_dpr", "two_conns_first_closed", "two_conns_second_closed",
           # a watchdog request of the node is outstanding when the peer's DPR arrives; the DWA comes afterwards
           "disconnecting_late_dwa"]
-PLANS = ["prompt", "late", "dup", "unknown", "wrong_e2e", "wrong_hbh", "never", "dup3", "late2"]
+PLANS = ["prompt", "late", "dup", "unknown", "wrong_e2e", "wrong_hbh", "never", "dup3", "late2",
+         # the caller has timed out; the peer then starts its disconnect and sends the owed answer right behind its DPR
+         # (one write): an answer nobody waits for, whatever state the connection is in when it is read
+         "late_after_dpr"]
 # "consuming" / "reordering": the callback treats the list it is handed as its own (empties it after choosing, sorts
 # it in place) - legal, and without consequence for anybody else
 CALLBACKS = ["default", "first", "last", "seeded", "consuming", "reordering"]
@@ -230,7 +233,7 @@ class Case:
                 elig.append(e)
                 res = {}
                 results.append(res)
-                timeout = 0.06 if plan in ("late", "late2", "never") else 20
+                timeout = 0.06 if plan in ("late", "late2", "never", "late_after_dpr") else 20
                 t = threading.Thread(target=app_request, args=(self.w.apps[tag], realm, timeout, res, f"c;{ci}"))
                 threads.append(t)
             for t in threads:
@@ -328,11 +331,17 @@ class Case:
                             # every copy nobody waits for goes to the handler, not only the first
                             h.settle()
                             sp.send(ans)
-                elif plan in ("late", "late2"):
+                elif plan in ("late", "late2", "late_after_dpr"):
                     late.append((ci, sp, ans))
             h.settle()
             for ci, sp, ans in late:
                 threads[ci].join(10)   # the caller has timed out: only now does the answer arrive
+                if self.callers[ci][2] == "late_after_dpr" and not getattr(sp, "dpr_sent", False):
+                    n_ = next(k for k, v in self.conn.items() if v is sp)
+                    p_ = next(x for x in self.cfg["peers"] if x["name"] == n_)
+                    sp.dpr_sent = True
+                    ans = M.dpr(n_, p_["realm"], hbh=0x7d00 + ci, e2e=0x7d00 + ci) + ans
+                    self.run.cov["answers_right_behind_a_dpr"] = self.run.cov.get("answers_right_behind_a_dpr", 0) + 1
                 sp.send(ans)
                 if self.callers[ci][2] == "late2":
                     h.settle()
@@ -359,7 +368,7 @@ class Case:
                 else:
                     if r.get("exc") != "TimeoutError":
                         self.witness("caller.no_timeout", ctx)
-                want_handled = {"late": 1, "dup": 1, "dup3": 2, "late2": 2}.get(plan, 0)
+                want_handled = {"late": 1, "dup": 1, "dup3": 2, "late2": 2, "late_after_dpr": 1}.get(plan, 0)
                 if len(mine) != want_handled:
                     self.witness(f"unexpected_answer.handler_calls.{plan}", {**ctx, "calls": [e["app"] for e in mine]})
                 elif mine and mine[0]["app"] != tag:
